@@ -151,11 +151,27 @@ fn count_len_nodes(fs: &[Fld]) -> usize {
     s.count
 }
 const EXTREMES: [u64; 8] = [0, 1, 127, 128, 1 << 14, (1 << 32) - 1, u64::MAX, 1 << 63];
+/// EXTREMES plus usize::MAX - k for k in 0..16: lengths for which `offset + len` wraps around
+pub fn all_extremes() -> Vec<u64> {
+    let mut v = EXTREMES.to_vec();
+    for k in 1..16u64 {
+        v.push(u64::MAX - k);
+    }
+    v
+}
+fn pick_extreme(rng: &mut Rng) -> u64 {
+    if rng.chance(50) {
+        EXTREMES[rng.below(EXTREMES.len() as u64) as usize]
+    } else {
+        u64::MAX - rng.below(16)
+    }
+}
+const NEAR_MAX_K: [u64; 6] = [1, 2, 5, 9, 10, 15];
 fn len_lies(fs: &[Fld]) -> Vec<Vec<u8>> {
     let n = count_len_nodes(fs);
     let mut out = Vec::new();
     for i in 0..n {
-        for v in EXTREMES {
+        for v in EXTREMES.into_iter().chain(NEAR_MAX_K.iter().map(|k| u64::MAX - k)) {
             out.push(Ser { lie: Some((i, v)), count: 0 }.flds(fs));
         }
     }
@@ -184,7 +200,9 @@ fn bad_peer_id(rng: &mut Rng) -> Vec<u8> {
             b
         }
         2 => {
-            let mut b = vec![0x12, 0x21];
+            // declared digest length off by one or extreme
+            let mut b = vec![0x12];
+            b.extend(if rng.chance(50) { vec![0x21] } else { uvi(pick_extreme(rng)) });
             b.extend(rand_bytes(rng, 32));
             b
         }
@@ -265,8 +283,10 @@ fn bad_maddr(rng: &mut Rng) -> Vec<u8> {
             b
         }
         4 => {
-            let mut b = vec![53];
-            b.extend(uvi(u64::MAX));
+            // /dns or /p2p with an extreme length
+            let mut b = if rng.chance(50) { vec![53] } else { uvi(421) };
+            b.extend(uvi(pick_extreme(rng)));
+            b.extend(small_bytes(rng, 12));
             b
         }
         _ => {
@@ -492,7 +512,17 @@ pub fn cid_bytes(rng: &mut Rng) -> Vec<u8> {
             b.extend(rand_bytes(rng, 32));
             b
         }
-        1 => small_bytes(rng, 10),
+        1 => {
+            if rng.chance(50) {
+                small_bytes(rng, 10)
+            } else {
+                // CIDv1 whose multihash declares an extreme digest length
+                let mut b = vec![1, 0x55, 0x12];
+                b.extend(uvi(pick_extreme(rng)));
+                b.extend(small_bytes(rng, 34));
+                b
+            }
+        }
         2 => {
             let mut b = vec![1, 0x55, 0x12, 0x20];
             b.extend(rand_bytes(rng, 32));
@@ -716,7 +746,7 @@ pub fn mutate_bytes(rng: &mut Rng, mut b: Vec<u8>) -> Vec<u8> {
             5 if !b.is_empty() => {
                 // overwrite with an extreme varint
                 let i = rng.below(b.len() as u64) as usize;
-                let v = uvi(EXTREMES[rng.below(EXTREMES.len() as u64) as usize]);
+                let v = uvi(pick_extreme(rng));
                 let end = (i + 1).min(b.len());
                 b.splice(i..end, v);
             }
@@ -746,7 +776,7 @@ fn finish(rng: &mut Rng, mut tree: Vec<Fld>) -> Vec<u8> {
                 ser(&tree)
             } else {
                 let i = rng.below(n as u64) as usize;
-                let v = EXTREMES[rng.below(EXTREMES.len() as u64) as usize];
+                let v = pick_extreme(rng);
                 Ser { lie: Some((i, v)), count: 0 }.flds(&tree)
             }
         }
@@ -785,7 +815,7 @@ fn c_ident(peer: &[u8], local: &[u8], b: &[u8]) -> Vec<u64> {
 }
 
 fn msm_seed(rng: &mut Rng) -> Vec<u8> {
-    match rng.below(9) {
+    match rng.below(10) {
         0 => b"/multistream/1.0.0\n".to_vec(),
         1 => b"na\n".to_vec(),
         2 => b"ls\n".to_vec(),
@@ -833,6 +863,13 @@ fn msm_seed(rng: &mut Rng) -> Vec<u8> {
             b.push(b'\n');
             b
         }
+        8 => {
+            // ls response: one good entry, then an entry declaring an extreme length
+            let mut b = vec![3, b'/', b'a', b'\n'];
+            b.extend(uvi(pick_extreme(rng)));
+            b.extend(b"/b\n\n");
+            b
+        }
         _ => small_bytes(rng, 30),
     }
 }
@@ -848,7 +885,7 @@ fn frame_stream(rng: &mut Rng, max: u64) -> Vec<u8> {
             _ => rng.below(max.min(300) + 1),
         };
         let declared = match rng.below(14) {
-            0 => EXTREMES[rng.below(EXTREMES.len() as u64) as usize],
+            0 => pick_extreme(rng),
             1 => n + 1,
             _ => n,
         };
@@ -865,6 +902,118 @@ fn frame_stream(rng: &mut Rng, max: u64) -> Vec<u8> {
         s = mutate_bytes(rng, s);
     }
     s
+}
+
+// ---------------------------------------------------------------- message-based multistream (WebRTC)
+
+const WEB_NAMES: [&[u8]; 3] = [b"/a", b"/ipfs/kad/1.0.0", b"/b/1"];
+const MS_HEADER: &[u8] = b"/multistream/1.0.0\n";
+
+fn wmsg(body: &[u8]) -> Vec<u8> {
+    let mut v = uvi(body.len() as u64);
+    v.extend(body);
+    v
+}
+/// a message whose length prefix is `declared` (written in `width` bytes when width > 0)
+fn wmsg_lie(body: &[u8], declared: u64, width: usize) -> Vec<u8> {
+    let mut v = if width == 0 { uvi(declared) } else { uvi_padded(declared, width) };
+    v.extend(body);
+    v
+}
+fn c_web_listen(hdr: bool, payload: &[u8]) -> Vec<u64> {
+    let mut c = vec![12, hdr as u64, WEB_NAMES.len() as u64];
+    for n in WEB_NAMES {
+        el(&mut c, n);
+    }
+    el(&mut c, payload);
+    c
+}
+fn c_web_dial(proto: &[u8], ops: &[Vec<u8>]) -> Vec<u64> {
+    let mut c = vec![13];
+    el(&mut c, proto);
+    ell(&mut c, ops);
+    c
+}
+fn web_body(rng: &mut Rng) -> Vec<u8> {
+    match rng.below(8) {
+        0 => MS_HEADER.to_vec(),
+        1 => b"na\n".to_vec(),
+        2 => b"ls\n".to_vec(),
+        3 => b"/unknown/1\n".to_vec(),
+        4 => small_bytes(rng, 12),
+        5 => vec![],
+        _ => {
+            let mut b = WEB_NAMES[rng.below(3) as usize].to_vec();
+            b.push(b'\n');
+            b
+        }
+    }
+}
+fn web_payload(rng: &mut Rng) -> Vec<u8> {
+    web_payload_h(rng).0
+}
+/// (payload, starts with a valid header message)
+fn web_payload_h(rng: &mut Rng) -> (Vec<u8>, bool) {
+    let mut p = Vec::new();
+    let mut has_header = false;
+    if rng.chance(60) {
+        p.extend(wmsg(MS_HEADER));
+        has_header = true;
+    }
+    for _ in 0..rng.below(3) {
+        let body = web_body(rng);
+        if rng.chance(15) {
+            let w = rng.pick(&[0usize, 0, 9, 10, 11]);
+            p.extend(wmsg_lie(&body, pick_extreme(rng), w));
+        } else if rng.chance(10) {
+            p.extend(wmsg_lie(&body, body.len() as u64 + rng.range(1, 3), 0));
+        } else {
+            p.extend(wmsg(&body));
+        }
+    }
+    if rng.chance(15) {
+        p = mutate_bytes(rng, p);
+    }
+    (p, has_header)
+}
+fn web_systematic(out: &mut Vec<Vec<u64>>) {
+    let proto = b"/ipfs/kad/1.0.0\n";
+    let mut extremes = all_extremes();
+    extremes.extend([proto.len() as u64 + 1, proto.len() as u64 - 1, 16383, 16384]);
+    for v in extremes {
+        for w in [0usize, 10] {
+            for keep_body in [true, false] {
+                let body: &[u8] = if keep_body { proto } else { b"" };
+                // the lie in the first message, and in the second one after a valid header
+                let first = wmsg_lie(body, v, w);
+                let mut second = wmsg(MS_HEADER);
+                second.extend(wmsg_lie(body, v, w));
+                for hdr in [false, true] {
+                    out.push(c_web_listen(hdr, &first));
+                    out.push(c_web_listen(hdr, &second));
+                }
+                out.push(c_web_dial(b"/ipfs/kad/1.0.0", &[first.clone()]));
+                out.push(c_web_dial(b"/ipfs/kad/1.0.0", &[second.clone()]));
+                out.push(c_web_dial(b"/ipfs/kad/1.0.0", &[wmsg(MS_HEADER), first.clone()]));
+            }
+        }
+    }
+    // every truncation of header + proposal, of a lone proposal and of header + na
+    let mut full = wmsg(MS_HEADER);
+    full.extend(wmsg(proto));
+    let mut na = wmsg(MS_HEADER);
+    na.extend(wmsg(b"na\n"));
+    for i in 0..=full.len() {
+        out.push(c_web_listen(false, &full[..i]));
+        out.push(c_web_dial(b"/ipfs/kad/1.0.0", &[full[..i].to_vec()]));
+    }
+    let lone = wmsg(proto);
+    for i in 0..=lone.len() {
+        out.push(c_web_listen(true, &lone[..i]));
+    }
+    for i in 0..=na.len() {
+        out.push(c_web_dial(b"/ipfs/kad/1.0.0", &[na[..i].to_vec()]));
+    }
 }
 
 fn rt_kad_peer(rng: &mut Rng, c: &mut Vec<u64>, max_addrs: u64, conn: Option<u64>) {
@@ -1095,7 +1244,18 @@ pub fn random_case(rng: &mut Rng) -> Vec<u64> {
             let t = kad_tree(rng);
             c_kad(k, &finish(rng, t))
         }
-        28..=39 => {
+        28..=31 => {
+            if rng.chance(60) {
+                let (p, has_header) = web_payload_h(rng);
+                let hdr = if rng.chance(80) { !has_header } else { has_header };
+                c_web_listen(hdr, &p)
+            } else {
+                let n = rng.range(1, 3);
+                let ops: Vec<Vec<u8>> = (0..n).map(|_| web_payload(rng)).collect();
+                c_web_dial(WEB_NAMES[rng.below(3) as usize], &ops)
+            }
+        }
+        32..=39 => {
             let b = msm_seed(rng);
             let b = if rng.chance(40) { mutate_bytes(rng, b) } else { b };
             c1(2, &b)
@@ -1112,7 +1272,7 @@ pub fn random_case(rng: &mut Rng) -> Vec<u64> {
         }
         50..=52 => {
             let b = match rng.below(4) {
-                0 => uvi(rng.next()),
+                0 => uvi(if rng.chance(50) { rng.next() } else { pick_extreme(rng) }),
                 1 => uvi_padded(rng.below(1 << 20), rng.pick(&[2usize, 9, 10, 11, 12])),
                 2 => vec![0x80; rng.below(13) as usize],
                 _ => small_bytes(rng, 12),
@@ -1238,7 +1398,7 @@ pub fn systematic(thorough: bool) -> Vec<Vec<u64>> {
         }
         // frame lengths: every extreme under both limits, with and without data behind it
         for max in [64u64, 70 * 1024] {
-            for v in EXTREMES.iter().copied().chain([max - 1, max, max + 1, 2, 16383, 16384]) {
+            for v in all_extremes().into_iter().chain([max - 1, max, max + 1, 2, 16383, 16384]) {
                 for w in [0usize, 9, 10, 11] {
                     let pre = if w == 0 { uvi(v) } else { uvi_padded(v, w) };
                     out.push(c_frames(Some(max), &pre));
@@ -1255,6 +1415,14 @@ pub fn systematic(thorough: bool) -> Vec<Vec<u64>> {
         }
         for b in [vec![], vec![0u8], vec![5, 1, 2, 3, 4, 5], vec![3, 1]] {
             out.push(c_frames(None, &b));
+        }
+        web_systematic(&mut out);
+        // ls response with every extreme entry length
+        for v in all_extremes() {
+            let mut b = vec![3, b'/', b'a', b'\n'];
+            b.extend(uvi(v));
+            b.extend(b"/b\n\n");
+            out.push(c1(2, &b));
         }
         // prefix parser / peer id: truncations
         let p = [uvi(1), uvi(0x55), uvi(0xb220), uvi(32)].concat();
